@@ -251,6 +251,8 @@ func (x *Explorer) fieldTags(base types.Type, idx int) Tag {
 		return TObjName
 	case n == a.Schema && f == a.SchFields:
 		return TSchemaFields
+	case n == a.Schema && f == a.SchObject:
+		return TWitness
 	}
 	return 0
 }
